@@ -301,3 +301,38 @@ func VH_C18_PongVsPacket() {
 	p.shutdown()
 	time.Sleep(2 * time.Second)
 }
+
+// VH_C18_TwoCallers: Send and Recv each called from two goroutines at once on
+// one connection (the statement lets the application call them "concurrently
+// from different goroutines"). Two chunked messages are queued; two goroutines
+// call Recv, two call Send on the other end of the pipe. No data race on the
+// per-connection state those calls share, no panic, no deadlock.
+func VH_C18_TwoCallers() {
+	a, b, ch := vPipe(1)
+	_ = ch
+	var wg sync.WaitGroup
+	wg.Add(4)
+	for i := 0; i < 2; i++ {
+		i := i
+		go func() { defer wg.Done(); _ = a.Send([]byte{byte(i), byte(i + 10)}) }()
+		go func() { defer wg.Done(); _, _ = b.Recv() }()
+	}
+	wg.Wait()
+	vReach("two-callers")
+}
+
+// VH_C18_SettersBoth: SetSendTimeout and SetRecvTimeout called at the same
+// time from two goroutines (an RPC layer's writer sets a write deadline while
+// its reader sets a read deadline). Besides being race free, both updates
+// must take effect: afterwards each getter returns what its setter stored.
+func VH_C18_SettersBoth() {
+	g := vConn(2, &vWire{})
+	var wg sync.WaitGroup
+	wg.Add(2)
+	go func() { defer wg.Done(); g.SetSendTimeout(3 * time.Second) }()
+	go func() { defer wg.Done(); g.SetRecvTimeout(5 * time.Second) }()
+	wg.Wait()
+	vReach("setters-both")
+	vAssert(g.timeoutManager.GetSendTimeout() == 3*time.Second, "a send timeout set concurrently with the receive timeout was lost")
+	vAssert(g.timeoutManager.GetRecvTimeout() == 5*time.Second, "a receive timeout set concurrently with the send timeout was lost")
+}
